@@ -300,6 +300,12 @@ def check_case(c, target, ilines, first_snap):
                 if k2 != target or d is None:
                     continue
                 dest_exists = d in sp.t
+                # left unspecified by C01: a transfer whose source has the wrong type, or into the source's own
+                # subtree (the source itself included): any outcome is accepted, the tree is taken from the next snapshot
+                if (op in ("copyfile", "movefile") and sp.is_dir(p)) or (op in ("copydir", "movedir") and sp.is_file(p)) \
+                        or d[:len(p)] == p:
+                    resync = True
+                    continue
                 if op in ("copyfile", "movefile"):
                     exp = sp.copy_file(p, d, move=(op == "movefile"))
                 else:
